@@ -67,6 +67,8 @@ def header(d, name, ind):
     if sig == "multiline_comment":
         return ["{}{} {}(".format(ind, kw, name), "{}    {}a,  # the first one".format(ind, self_), "{}    b='x',".format(ind),
                 "{}):".format(ind)]
+    if sig == "decorated_call":
+        return ["{}@decorate_with(maxsize=None)".format(ind), "{}{} {}({}a: int, b: str = 'x') -> str:".format(ind, kw, name, self_)]
     return ["{}@decorate".format(ind), "{}{} {}({}a, b='x') -> str:".format(ind, kw, name, self_)]
 
 
@@ -114,7 +116,7 @@ def definition(d, name, ind=""):
 
 def render(prog):
     lines = ["# -*- coding: utf-8 -*-", '"""Module docstring"""', "import os  # first comment", "", "", "def decorate(f):", "    # helper",
-             "    return f", "", "", "class Base(object):", "    pass", "", "", "CONSTANT = {'a': 1,", "            'b': 2}   # odd spacing", "", ""]
+             "    return f", "", "", "def decorate_with(maxsize=None):", "    return decorate", "", "", "class Base(object):", "    pass", "", "", "CONSTANT = {'a': 1,", "            'b': 2}   # odd spacing", "", ""]
     for k, d in enumerate(prog):
         lines += definition(d, "target{}".format(k))
         lines += ["", "", "# between definitions {}".format(k), "VALUE_{} = os.sep".format(k), "", ""]
